@@ -43,6 +43,19 @@ pub fn full_pieces(ev: Ev) -> &'static Vec<String> {
         for s in ["<", ">", "=", "x", ".", "é", "\u{1F600}"] {
             v.push(s.to_string());
         }
+        // code points next to the non-ASCII characters of the vocabulary (a range test or an offset computation that is
+        // one too wide accepts ⁱ U+2071 as a superscript digit, ± as °, ρ as π ...)
+        let mut special: Vec<char> = "²³¹⁰⁴⁵⁶⁷⁸⁹°π⌊⌋⌈⌉".chars().collect();
+        special.sort();
+        for c in special.clone() {
+            for d in [-2i32, -1, 1, 2] {
+                if let Some(n) = char::from_u32((c as i32 + d) as u32) {
+                    if !special.contains(&n) && !n.is_ascii() && !v.contains(&n.to_string()) {
+                        v.push(n.to_string());
+                    }
+                }
+            }
+        }
         for f in gen::foreign_fragments(ev).into_iter().take(12) {
             if !v.contains(&f) {
                 v.push(f);
@@ -133,6 +146,14 @@ fn keyword_neighbourhood() -> &'static Vec<String> {
                     bases.push(s.iter().collect());
                 }
             }
+            // one letter inserted anywhere (a keyword matcher that skips an optional letter accepts artan2 for atan2)
+            for i in 0..=cs.len() {
+                for a in alpha.iter().filter(|a| a.is_ascii_lowercase() || **a == '2' || **a == '_') {
+                    let mut s = cs.clone();
+                    s.insert(i, *a);
+                    bases.push(s.iter().collect());
+                }
+            }
         }
         bases.sort();
         bases.dedup();
@@ -182,7 +203,7 @@ impl Prop for C01Prop {
         "C01"
     }
     fn rule(&self) -> String {
-        "Cases are (evaluator, input string, placeholder). Enumerated exhaustively: every sequence of <=3 pieces over each evaluator's complete vocabulary (+literal pool, foreign tokens), <=4 (quick) / <=5 (thorough) over one representative per token class, every string of <=3 (quick) / <=4 (thorough) chars over the keyword alphabet, the keyword neighbourhood, nesting families up to 256 chars; then aggregate stress lists (2..60 arguments repeating a few values that are equal or adjacent in one representation only: 2^53 / 2^53+1 / 2^53.0, 0 / 0.0 / -0.0 / NaN, 2 / 2.00), random well-formed trees over boundary operands, token-level near-miss mutants and raw Unicode strings. Inputs containing '@' are run against the placeholder pool. distinct = distinct (evaluator,input,placeholder); non-trivial = the reference lexer yields >=2 tokens or the evaluator returned Ok. Oracle: the call returns Ok or Err (no panic; a process abort is detected by the supervisor).".into()
+        "Cases are (evaluator, input string, placeholder). Enumerated exhaustively: every sequence of <=3 pieces over each evaluator's complete vocabulary (+literal pool, foreign tokens, the code points next to every non-ASCII vocabulary character), <=4 (quick) / <=5 (thorough) over one representative per token class, every string of <=3 (quick) / <=4 (thorough) chars over the keyword alphabet, the keyword neighbourhood (prefixes, one character deleted / substituted / inserted, call suffixes), nesting families up to 256 chars; then aggregate stress lists (2..60 arguments repeating a few values that are equal or adjacent in one representation only: 2^53 / 2^53+1 / 2^53.0, 0 / 0.0 / -0.0 / NaN, 2 / 2.00), random well-formed trees over boundary operands, token-level near-miss mutants and raw Unicode strings. Inputs containing '@' are run against the placeholder pool. distinct = distinct (evaluator,input,placeholder); non-trivial = the reference lexer yields >=2 tokens or the evaluator returned Ok. Oracle: the call returns Ok or Err (no panic; a process abort is detected by the supervisor).".into()
     }
     fn assumptions(&self) -> Vec<String> {
         vec!["a step-budget hit (possible hang) is counted as excluded here and reported by C02".into(), "stack depth: shard threads have 16 MiB stacks".into()]
